@@ -26,6 +26,8 @@ import (
 	"github.com/marekgalovic/anndb/storage/raft"
 	"github.com/marekgalovic/anndb/storage/wal"
 	"google.golang.org/grpc"
+	"google.golang.org/grpc/codes"
+	"google.golang.org/grpc/status"
 	"google.golang.org/grpc/metadata"
 
 	uuid "github.com/satori/go.uuid"
@@ -128,6 +130,7 @@ type simNode struct {
 }
 
 type simCluster struct {
+	order map[uuid.UUID][]uuid.UUID // dataset -> partition ids in catalogue order, as created
 	cat   *catalogue
 	nodes map[uint64]*simNode
 	ids   []uint64
@@ -264,6 +267,14 @@ func (c *simCluster) createDataset(via uint64, dim, parts, repl uint32, space pb
 		return uuid.Nil, err
 	}
 	id := ds.VerifId()
+	// the harness's own record of the catalogue order of the partitions (routing is positional in it),
+	// taken once, from the value Create returned: never re-read from a node's live partition list
+	c.mu.Lock()
+	if c.order == nil {
+		c.order = map[uuid.UUID][]uuid.UUID{}
+	}
+	c.order[id] = ds.VerifPartitionIds()
+	c.mu.Unlock()
 	ok := waitFor(5*time.Second, func() bool {
 		for _, n := range c.nodes {
 			if _, err := n.node.DatasetManager.Get(id); err != nil {
@@ -384,6 +395,21 @@ type simDMClient struct {
 	from, to uint64
 }
 
+type hopKey struct{}
+
+// pre2 = pre + a bound on how often one request is handed from node to node. The in-memory clients call
+// the peer's handler on the caller's stack; two nodes that each believe the other owns an id would
+// forward the request for ever (over gRPC: until the deadline). After 12 hops the call fails the way
+// the real one would: deadline exceeded.
+func (d *simDMClient) pre2(ctx context.Context, method string, req interface{}) (context.Context, pb.DataManagerServer, error) {
+	hops, _ := ctx.Value(hopKey{}).(int)
+	if hops >= 12 {
+		return ctx, nil, status.Error(codes.DeadlineExceeded, "forwarded 12 times between nodes without reaching an owner (a real call bounces until its deadline)")
+	}
+	s, err := d.pre(ctx, method, req)
+	return context.WithValue(ctx, hopKey{}, hops+1), s, err
+}
+
 func (d *simDMClient) pre(ctx context.Context, method string, req interface{}) (pb.DataManagerServer, error) {
 	d.c.mu.Lock()
 	err := d.c.dmFail[[2]uint64{d.from, d.to}]
@@ -407,70 +433,70 @@ func (d *simDMClient) pre(ctx context.Context, method string, req interface{}) (
 }
 
 func (d *simDMClient) Insert(ctx context.Context, in *pb.InsertRequest, opts ...grpc.CallOption) (*pb.EmptyMessage, error) {
-	s, err := d.pre(ctx, "Insert", in)
+	ctx, s, err := d.pre2(ctx, "Insert", in)
 	if err != nil {
 		return nil, err
 	}
 	return s.Insert(ctx, in)
 }
 func (d *simDMClient) Update(ctx context.Context, in *pb.UpdateRequest, opts ...grpc.CallOption) (*pb.EmptyMessage, error) {
-	s, err := d.pre(ctx, "Update", in)
+	ctx, s, err := d.pre2(ctx, "Update", in)
 	if err != nil {
 		return nil, err
 	}
 	return s.Update(ctx, in)
 }
 func (d *simDMClient) Remove(ctx context.Context, in *pb.RemoveRequest, opts ...grpc.CallOption) (*pb.EmptyMessage, error) {
-	s, err := d.pre(ctx, "Remove", in)
+	ctx, s, err := d.pre2(ctx, "Remove", in)
 	if err != nil {
 		return nil, err
 	}
 	return s.Remove(ctx, in)
 }
 func (d *simDMClient) BatchInsert(ctx context.Context, in *pb.BatchRequest, opts ...grpc.CallOption) (*pb.BatchResponse, error) {
-	s, err := d.pre(ctx, "BatchInsert", in)
+	ctx, s, err := d.pre2(ctx, "BatchInsert", in)
 	if err != nil {
 		return nil, err
 	}
 	return s.BatchInsert(ctx, in)
 }
 func (d *simDMClient) BatchUpdate(ctx context.Context, in *pb.BatchRequest, opts ...grpc.CallOption) (*pb.BatchResponse, error) {
-	s, err := d.pre(ctx, "BatchUpdate", in)
+	ctx, s, err := d.pre2(ctx, "BatchUpdate", in)
 	if err != nil {
 		return nil, err
 	}
 	return s.BatchUpdate(ctx, in)
 }
 func (d *simDMClient) BatchRemove(ctx context.Context, in *pb.BatchRequest, opts ...grpc.CallOption) (*pb.BatchResponse, error) {
-	s, err := d.pre(ctx, "BatchRemove", in)
+	ctx, s, err := d.pre2(ctx, "BatchRemove", in)
 	if err != nil {
 		return nil, err
 	}
 	return s.BatchRemove(ctx, in)
 }
 func (d *simDMClient) PartitionBatchInsert(ctx context.Context, in *pb.PartitionBatchRequest, opts ...grpc.CallOption) (*pb.BatchResponse, error) {
-	s, err := d.pre(ctx, "PartitionBatchInsert", in)
+	ctx, s, err := d.pre2(ctx, "PartitionBatchInsert", in)
 	if err != nil {
 		return nil, err
 	}
 	return s.PartitionBatchInsert(ctx, in)
 }
 func (d *simDMClient) PartitionBatchUpdate(ctx context.Context, in *pb.PartitionBatchRequest, opts ...grpc.CallOption) (*pb.BatchResponse, error) {
-	s, err := d.pre(ctx, "PartitionBatchUpdate", in)
+	ctx, s, err := d.pre2(ctx, "PartitionBatchUpdate", in)
 	if err != nil {
 		return nil, err
 	}
 	return s.PartitionBatchUpdate(ctx, in)
 }
 func (d *simDMClient) PartitionBatchRemove(ctx context.Context, in *pb.PartitionBatchRequest, opts ...grpc.CallOption) (*pb.BatchResponse, error) {
-	s, err := d.pre(ctx, "PartitionBatchRemove", in)
+	ctx, s, err := d.pre2(ctx, "PartitionBatchRemove", in)
 	if err != nil {
 		return nil, err
 	}
 	return s.PartitionBatchRemove(ctx, in)
 }
 func (d *simDMClient) PartitionInfo(ctx context.Context, in *pb.PartitionInfoRequest, opts ...grpc.CallOption) (*pb.PartitionInfoResponse, error) {
-	s, err := d.pre(ctx, "PartitionInfo", in)
+	ctx, s, err := d.pre2(ctx, "PartitionInfo", in)
 	if err != nil {
 		return nil, err
 	}
@@ -646,4 +672,36 @@ func (c *simCluster) restartNode(id uint64) (*simNode, error) {
 		return sn, errors.New("catalogue replay panicked: " + ps[0])
 	}
 	return sn, nil
+}
+
+// canonIndex: position of a partition in the catalogue order recorded when the dataset was created
+func (c *simCluster) canonIndex(ds, pid uuid.UUID) int {
+	c.mu.Lock()
+	defer c.mu.Unlock()
+	for i, q := range c.order[ds] {
+		if q == pid {
+			return i
+		}
+	}
+	return -1
+}
+
+// partitionByCanonIndex: the node's partition object whose id is the i-th of the recorded catalogue order
+func (c *simCluster) partitionByCanonIndex(node uint64, ds uuid.UUID, i int) *storage.VerifPartition {
+	c.mu.Lock()
+	var pid uuid.UUID
+	if i < len(c.order[ds]) {
+		pid = c.order[ds][i]
+	}
+	c.mu.Unlock()
+	d := c.dataset(node, ds)
+	if d == nil {
+		return nil
+	}
+	for k := 0; k < d.VerifPartitionCount(); k++ {
+		if p := d.VerifPartitionAt(k); p.Id() == pid {
+			return p
+		}
+	}
+	return nil
 }
